@@ -19,6 +19,8 @@ use std::sync::Arc;
 use std::time::{Duration, Instant};
 
 pub const T0: u64 = 1_700_000_000_000;
+/// alloc_base value for executions whose allocations are not metered (nested runs inside an oracle)
+pub const NO_COUNT: usize = usize::MAX;
 pub const GROUP_V4: Ipv4Addr = Ipv4Addr::new(224, 0, 0, 251);
 pub const GROUP_V6: Ipv6Addr = Ipv6Addr::new(0xff02, 0, 0, 0, 0, 0, 0, 0xfb);
 
@@ -60,6 +62,7 @@ enum QEv {
     PeerGet { p: usize, from_d: usize, tx: usize, v4: bool, unicast: bool },
     PeerAuto { p: usize, v4: bool, msg: Msg },
     Spurious { d: usize },
+    Tick,
 }
 
 pub struct World<'a> {
@@ -360,7 +363,7 @@ impl<'a> World<'a> {
 
     fn start_duts(&mut self) {
         for (d, cfg) in self.scn.duts.iter().enumerate() {
-            let alloc_slot = self.alloc_base + d;
+            let alloc_slot = if self.alloc_base == NO_COUNT { 0 } else { self.alloc_base + d };
             let node = Arc::new(Node::new(d, mix(self.scn.seed, 0xD07 + d as u64), to_interfaces(&cfg.ifs), alloc_slot));
             {
                 let mut g = node.lock();
@@ -1152,6 +1155,10 @@ impl<'a> World<'a> {
             self.push(o.at, QEv::Op(i));
         }
         let horizon = self.scn.horizon_ms;
+        if self.scn.sched.tick_ms > 0 {
+            let t = self.scn.sched.tick_ms;
+            self.push(t, QEv::Tick);
+        }
         loop {
             let tq = self.queue.peek().map(|Reverse((t, _, _))| *t);
             let tn = self.next_node_time();
@@ -1204,6 +1211,16 @@ impl<'a> World<'a> {
                     QEv::PeerAuto { p, v4, msg } => {
                         let bytes = msg.encode();
                         self.peer_send(p, v4, 5353, bytes, &Dest::Mcast);
+                    }
+                    QEv::Tick => {
+                        for d in 0..self.duts.len() {
+                            if !self.duts[d].gone && self.duts[d].stalled_until <= self.now && !self.due(d) {
+                                self.trace.stats.spurious += 1;
+                                self.step(d, Cause::Spurious);
+                            }
+                        }
+                        let nt = self.now + self.scn.sched.tick_ms;
+                        self.push(nt, QEv::Tick);
                     }
                     QEv::Spurious { d } => {
                         if !self.duts[d].gone && self.duts[d].stalled_until <= self.now {
